@@ -1,47 +1,18 @@
-//! scratch probe (not a registered check)
 use discret::verif_hooks::configuration::Configuration;
 use discret::verif_hooks::database::graph_database::GraphDatabaseService;
 use discret::verif_hooks::event_service::EventService;
-use discret::verif_hooks::security::{base64_encode, random32};
-use discret::{Parameters, ParametersAdd};
+use discret::verif_hooks::security::random32;
 use std::path::PathBuf;
-
 #[tokio::main(flavor = "multi_thread")]
 async fn main() {
     let path: PathBuf = "/verif/work/probe".into();
     let _ = std::fs::remove_dir_all(&path);
     std::fs::create_dir_all(&path).unwrap();
-    let model = "ns { Person{ name:String, pets:[ns.Pet] } Pet{ name:String } }";
-    let (app, vk, _) = GraphDatabaseService::start("probe", model, &random32(), &random32(), path, &Configuration::default(), EventService::new()).await.unwrap();
-    let mut p = Parameters::default();
-    p.add("user_id", base64_encode(&vk)).unwrap();
-    let room = app.mutate_raw(r#"mutate { sys.Room{ admin:[{verif_key:$user_id}] authorisations:[{ name:"g" rights:[{entity:"ns.Person" mutate_self:true mutate_all:true},{entity:"ns.Pet" mutate_self:true mutate_all:true}] }] } }"#, Some(p)).await.unwrap();
-    let ri = &room.mutate_entities[0];
-    let room_id = base64_encode(&ri.node_to_mutate.id);
-    let auth_id = base64_encode(&ri.sub_nodes.get("authorisations").unwrap()[0].node_to_mutate.id);
-    let mut p = Parameters::default();
-    p.add("room_id", room_id.clone()).unwrap();
-    let r = app.mutate_raw(r#"mutate { ns.Person{ room_id:$room_id name:"p" pets:[{name:"kiki"}] } }"#, Some(p)).await.unwrap();
-    let pe = &r.mutate_entities[0];
-    let person_id = base64_encode(&pe.node_to_mutate.id);
-    let pet = &pe.sub_nodes.get("pets").unwrap()[0];
-    let pet_id = base64_encode(&pet.node_to_mutate.id);
-    println!("pet room = {:?}", pet.node_to_mutate.room_id.map(|r| base64_encode(&r)));
-    tokio::time::sleep(std::time::Duration::from_millis(20)).await;
-    let mut p = Parameters::default();
-    p.add("room_id", room_id.clone()).unwrap();
-    p.add("auth_id", auth_id.clone()).unwrap();
-    app.mutate_raw(r#"mutate { sys.Room{ id:$room_id authorisations:[{ id:$auth_id rights:[{entity:"ns.Pet" mutate_self:false mutate_all:false}] }] } }"#, Some(p)).await.unwrap();
-    tokio::time::sleep(std::time::Duration::from_millis(20)).await;
-    let mut p = Parameters::default();
-    p.add("pet_id", pet_id.clone()).unwrap();
-    let direct = app.mutate_raw(r#"mutate { ns.Pet{ id:$pet_id name:"direct" } }"#, Some(p)).await;
-    println!("direct update of the pet after revocation: {}", if direct.is_ok() { "ACCEPTED" } else { "refused" });
-    let mut p = Parameters::default();
-    p.add("pet_id", pet_id.clone()).unwrap();
-    p.add("person_id", person_id.clone()).unwrap();
-    let via = app.mutate_raw(r#"mutate { ns.Person{ id:$person_id pets:[{ id:$pet_id name:"via parent" }] } }"#, Some(p)).await;
-    println!("update of the pet through its unchanged parent: {}", if via.is_ok() { "ACCEPTED" } else { "refused" });
-    let q = app.query("query { ns.Pet{ name } }", None).await.unwrap();
-    println!("{}", q);
+    let model = "ns { E1{ name:String, subs:[ns.E2] } E2{ name:String } E3{ name:String } }";
+    let (app, _vk, _) = GraphDatabaseService::start("probe", model, &random32(), &random32(), path, &Configuration::default(), EventService::new()).await.unwrap();
+    app.mutate_raw(r#"mutate { ns.E1{ name:"p" subs:[{name:"kiki"}] } ns.E3{name:"z"} }"#, None).await.unwrap();
+    for q in ["query { ns.E1(order_by(id asc)){ id room_id mdate verifying_key name subs(order_by(id asc), nullable(subs)){ id } } }",
+              "query { ns.E1(order_by(id asc), nullable(subs)){ id room_id mdate verifying_key name subs(order_by(id asc)){ id } } ns.E2(order_by(id asc)){ id room_id mdate verifying_key name } ns.E3(order_by(id asc)){ id room_id mdate verifying_key name } }"] {
+        println!("{:?}", app.query(q, None).await);
+    }
 }
